@@ -235,8 +235,110 @@ func C08(r *explore.Run) {
 	})
 }
 
+// kwLikeIdents are non-reserved words that the grammar uses as pseudo keywords or type names: as they are not
+// reserved, each of them is also an ordinary identifier.
+var kwLikeIdents = strings.Fields("INT64 STRING DATE BOOL JSON BYTES FLOAT64 NUMERIC TIMESTAMP TOKENLIST ACTION ADD ALTER ANALYZE BERNOULLI CALL CASCADE CHANGE COLUMN " +
+	"CONSTRAINT DATABASE DELETE DROP FIRST GENERATED GRANT HIDDEN IDENTITY INDEX INSERT INTERLEAVE INVOKER KEY LAST MAX MODEL OFFSET OPTIONS ORDINAL PARENT PERCENT " +
+	"POLICY PRIMARY REPLACE RESERVOIR RETURN REVOKE ROLE ROW SAFE_CAST SAFE_OFFSET SECURITY SEQUENCE STORED STREAM TABLE UPDATE VALUE VALUES VIEW REPLACE_FIELDS UNKNOWN date value offset")
+
+var simpleTypeNames = map[string]bool{"INT64": true, "STRING": true, "DATE": true, "BOOL": true, "JSON": true, "BYTES": true, "FLOAT64": true, "NUMERIC": true, "TIMESTAMP": true, "TOKENLIST": true, "FLOAT32": true, "INTERVAL": true}
+
+// identSubstitution: G's identifier positions take any identifier, so a sentence stays a sentence when one of
+// its plain identifiers is renamed to a non-reserved word the grammar also uses as a pseudo keyword.
+func identSubstitution(r *explore.Run) {
+	k := 2
+	if r.Tier == "thorough" {
+		k = 3
+	}
+	r.Explore(explore.Options{Space: "S4i/identifier-renamings", MaxDev: k, SplitLen: 3,
+		Bound: fmt.Sprintf("every sentence of G with <=%d deviations x every plain identifier x each of %d keyword-like non-reserved names", k, len(kwLikeIdents))},
+		func(c *explore.Ctx) {
+			root := grammar.Roots[c.ChooseFree(len(grammar.Roots))]
+			s := grammar.Derive(c, root)
+			c.Input(s.Text())
+			parts := make([]string, len(s.Src))
+			for i, t := range s.Src {
+				parts[i] = t.Text
+			}
+			names := []string{specificEntry(s.Kind)}
+			if isStatementKind(s.Kind) {
+				names = append(names, "ParseStatement")
+			}
+			// the sentence itself must be accepted (a rejected one is C08's main space's business)
+			for _, n := range names {
+				if n != "" {
+					if res := EntryByName(n).Call(s.Text()); res.Panic != nil || res.Err != nil {
+						return
+					}
+				}
+			}
+			for i, t := range s.Src {
+				if t.Class != grammar.ID || t.Text != t.Val {
+					continue
+				}
+				prevT, nextT := "", ""
+				if i > 0 {
+					prevT = strings.ToUpper(s.Src[i-1].Text)
+				}
+				if i+1 < len(s.Src) {
+					nextT = s.Src[i+1].Text
+				}
+				for _, w := range kwLikeIdents {
+					// places where the documentation's own grammar gives the word its keyword meaning
+					switch u := strings.ToUpper(w); {
+					case (u == "SAFE_CAST" || u == "REPLACE_FIELDS") && nextT == "(": // the cast / replace-fields syntax itself
+						continue
+					case (u == "TABLE" || u == "MODEL" || u == "SEQUENCE") && (prevT == "(" || prevT == ","): // TABLE t / MODEL m / SEQUENCE s arguments
+						continue
+					case u == "CONSTRAINT" && (prevT == "(" || prevT == ","): // CONSTRAINT name ... in a table element list
+						continue
+					case u == "PARENT" && prevT == "IN": // INTERLEAVE IN [PARENT] t
+						continue
+					case (u == "STRING" || u == "BYTES") && s.Kind == "ddl": // a column type STRING / BYTES needs its length
+						continue
+					case simpleTypeNames[u] && nextT == "." && (s.Kind == "type" || s.Kind == "ddl"): // a named type whose path starts like a built-in type
+						continue
+					case (u == "ALTER" || u == "DROP" || u == "SET") && i >= 2 && strings.ToUpper(s.Src[i-2].Text) == "COLUMN": // ALTER COLUMN c ALTER/DROP/SET ...
+						continue
+					case u == "SEQUENCE" && prevT == "DISTINCT": // first argument position as well
+						continue
+					case u == "VALUE" && prevT == "AS": // SELECT AS VALUE
+						continue
+					}
+					parts[i] = w
+					var b strings.Builder
+					for j, u := range s.Src {
+						b.WriteString(parts[j])
+						if j+1 < len(s.Src) && !u.NoGap {
+							b.WriteByte(' ')
+						}
+					}
+					x := b.String()
+					c.Count("renamed_sentences", 1)
+					c.Nontrivial(explore.Hash(x))
+					for _, n := range names {
+						if n == "" {
+							continue
+						}
+						res := EntryByName(n).Call(x)
+						if res.Panic == nil && res.Err != nil {
+							prev := "<start>"
+							if i > 0 {
+								prev = strings.ToUpper(s.Src[i-1].Text)
+							}
+							c.Violation("C08/renamed-identifier-rejected/"+strings.ToUpper(w)+"/after="+prev, x, fmt.Sprintf("%s rejects a sentence of G (root %s) whose identifier #%d is named %s: %v", n, s.Root, i, w, res.Err))
+							break
+						}
+					}
+				}
+				parts[i] = t.Text
+			}
+			c.OutcomeStr(s.Text())
+		})
+}
+
 func init() {
-	Registry["C08"] = C08
+	Registry["C08"] = func(r *explore.Run) { C08(r); identSubstitution(r) }
 }
 
 // errContext names the token at the first error's position and the one before it.
